@@ -56,7 +56,7 @@ CLAIMED.update({
     "C16": (
         "closed-form / must-check analysis of the driver on FoIR, who-may-call inventory of file APIs, cursor state-machine analysis of every hand-written loop, belief rules on guarded unfolding, abstract interpretation of parser productivity (ADV)",
         "Termination as a whole is NOT decided. Decided for all inputs and faults: I/O results are tested and failures reach a diagnostic; the single write receives the complete translation; one recover/exit site with non-zero status; "
-        "each of the 38 hand-written loops exits at end of input and makes progress; unfolding of named/cyclic data is guarded (2 known findings: self-referential records overflow the stack); "
+        "each of the 38 hand-written loops exits at end of input and makes progress; unfolding of named/cyclic data is guarded (the two record arms this rule reported were repaired); "
         "the parser's recursion is productive — no cycle of the call/callback graph without consuming a token, every ParseList step and grammar callback consumes a token or panics — so parsing terminates on every finite token sequence.",
         "Assumes run-time panics inside the deferred region become diagnostics and that every non-EOF token has positive length. The resolver fixpoint, inference recursion other than the guarded unfoldings, stack depth and memory are not decided.",
         "DESIGN.md §3 C16",
@@ -65,10 +65,10 @@ CLAIMED.update({
 
 CLAIMED.update({
     "C05": (
-        "source inventory (who-may-call) + enumeration of map ranges + interprocedural bag/order taint analysis on FoIR with a commutative-action table",
+        "source inventory (who-may-call) + enumeration of map ranges + interprocedural bag/order taint analysis on FoIR with a commutative-action table + closed diagnostic sink (consumers of recover(), single file-write path)",
         "Source-to-sink argument for all programs and all map orders at once: no nondeterminism source (goroutines, time, randomness, environment, addresses, reflect map iteration) is referenced in fc or the pkg/* it imports; "
         "the only map ranges are dict.Keys/Values/KVs; their results (bags) reach only order-insensitive consumers (sort, size, effect-free predicates/maps, Iter with a commutative action whose closed form is pinned); "
-        "a value that observes a bag's order may flow only into a diagnostic message.",
+        "a value that observes a bag's order may flow only into a diagnostic message, and the diagnostic sink is closed: the recovered panic value is only compared, formatted and printed, and files have one write path.",
         "Trusts the allow-listed Go standard library functions to be deterministic; wording of diagnostics is not fixed by the statement.",
         "DESIGN.md §3 C05",
     ),
@@ -96,20 +96,20 @@ CLAIMED.update({
 
 CLAIMED.update({
     "C07": (
-        "abstract interpretation of the ParseState stack discipline on FoIR (PAIR), closed forms of the reset/driver functions, who-may-write inventories for global and per-scope state, construction/registration pairing for type-instance keys",
+        "abstract interpretation of the ParseState stack discipline on FoIR (PAIR: relative summaries, plus a top-down pass for the absolute scope depth at binder-registration sites), closed forms of the reset/driver functions, who-may-write inventories for global and per-scope state, construction/registration pairing for type-instance keys",
         "Bounds, for every history of definitions and files at once, what can survive between definitions: root scope/offside/type-def mode are restored at every top-level statement (all ~130 state-threading functions, callbacks discharged at binding sites); "
         "each top-level let is parsed from a reset temp/inference context; one state is folded over the files; output naming closed form and single write path; written globals and per-scope tables have frozen writer sets (declaration registration only); "
-        "type-instance keys are registered where they are built.",
-        "Invariance of the emitted text itself is not decided (collisions in the info dictionaries, inference-state leakage through keyed entries). Rules (f) and (g) were added after two seeded variants showed state paths the first design did not cover.",
+        "type-instance keys are registered where they are built; pattern and parameter binders never land in the root scope (minimum scope depth >= 1 on every call path, callbacks bound).",
+        "Invariance of the emitted text itself is not decided (collisions in the info dictionaries, inference-state leakage through keyed entries). Rules (f), (g) and PAIR.depth were added after seeded variants showed state paths the first design did not cover.",
         "DESIGN.md §3 C07",
     ),
 })
 
 CLAIMED.update({
     "C03": (
-        "closed-form (TERM) and emission-template (SHAPE) comparison of the naming/declaration/call emitters on FoIR; structural comparison of every shipped package_info signature with go/types (FOI)",
+        "closed-form (TERM) and emission-template (SHAPE) comparison of the naming/declaration/call emitters on FoIR; name-flow rule for package_info registration; structural comparison of every shipped package_info signature with go/types (FOI)",
         "The documented Go representation is produced by ~30 straight-line emitter functions; their canonical closed forms / piece sequences (literals, dynamic pieces, joins, in buffer order) are compared with the documented shapes, so the contract holds for every declaration shape and application arity at once. "
-        "All 103 shipped package_info declarations are parsed by the checker's own reading of the type grammar and agree with the Go signatures.",
+        "All 103 shipped package_info declarations are parsed by the checker's own reading of the type grammar and agree with the Go signatures. External functions and types enter the enclosing scope only under their package-qualified names, so a user declaration is never replaced by an external one of the same short name.",
         "Does not decide that emitted declarations compile with arbitrary client code. A rewritten emitter with another canonical form is undecided.",
         "DESIGN.md §3 C03",
     ),
@@ -121,9 +121,9 @@ CLAIMED.update({
         "DESIGN.md §3 C06",
     ),
     "C15": (
-        "closed-form (TERM) comparison of the 4-level type parser and constructors, emission templates (SHAPE) of the type printer, base-type table composed from parser name tests and printer arms, who-calls for the five syntactic positions",
+        "closed-form (TERM) comparison of the 4-level type parser and constructors, emission templates (SHAPE) of the type printer, base-type table composed from parser name tests and printer arms, who-calls for the five syntactic positions, name-flow rule for external type registration, lexer token inventory vs. type syntax",
         "The precedence of the type sub-language is entirely in which parser each level calls and how each level builds its node, so the closed forms decide the mapping for type expressions of any depth in every position: flat arrow lists, flat tuples of []-level terms, parentheses only group, "
-        "base-type table, Name[T, U], frt.TupleN[...], func (A,B) C.",
+        "base-type table, Name[T, U], frt.TupleN[...], func (A,B) C. External types are registered package-qualified only; no operator token fuses the '>' closing a type-argument list with what may follow it.",
         "Per-expression enumeration is not performed; it follows from the grammar for a correct recursive-descent reading.",
         "DESIGN.md §3 C15",
     ),
@@ -131,10 +131,10 @@ CLAIMED.update({
 
 CLAIMED.update({
     "C01": (
-        "PAIR abstract interpretation (lexical scoping), panic-default exhaustiveness of every compiler pass, closed forms / emission templates (conditionals, operand order, match dispatch), who-may-call for reordering primitives, strictness scan of emitter templates, go/types check of all shipped generated files",
+        "PAIR abstract interpretation (lexical scoping), panic-default exhaustiveness of every compiler pass, closed forms / emission templates (conditionals, operand order, match dispatch), who-may-call for reordering primitives, strictness scan of emitter templates, go/types check of all shipped generated files, the C10 (equality) and C11 (literal emission) conditions imported as necessary conditions",
         "Behavioural equality over all programs is NOT decided. Decided, each for all programs at once, are structural necessary conditions whose violation changes behaviour for some program: scopes are pushed/popped exactly around binders; all 44 never-reached type switches are exhaustive; "
-        "conditionals become frt.IfElse*/IfOnly over un-invoked function literals in order; operands are emitted once in source order and never reordered; case labels and constructors share one naming function; every shipped generated file type-checks. "
-        "5 known findings (partial application re-evaluates supplied arguments; 4 shipped samples do not compile).",
+        "conditionals become frt.IfElse*/IfOnly over un-invoked function literals in order; operands are emitted once in source order and never reordered; case labels and constructors share one naming function; every shipped generated file type-checks (the four samples that did not were repaired); `=`/`<>` and string interpolation are lowered as C10/C11 require. "
+        "1 known finding (partial application re-evaluates supplied arguments).",
         "Closures, inference interaction and evaluation results are not decided; Go's left-to-right evaluation order and the frt helpers (C14) are assumed.",
         "DESIGN.md §3 C01",
     ),
@@ -144,7 +144,7 @@ CLAIMED.update({
     "C04": (
         "artefact agreement: an independent Folang tokenizer/segmenter compares every checked-in (source, generated) pair — file sets, ordered declaration tables, per-definition literal sequences and construct counts — plus gofmt idempotence, README/pkg_all.foi recipe evaluation on the checked-in files",
         "The fixed point itself (build, run, compare bytes; generation 2) is an execution and is NOT decided. Decided is a necessary condition no test looks at: all 34 pairs agree in their ordered declarations (funcs with arity, structs with fields, union interface/methods/cases/constructors) and all 457 definitions agree in literal values and if/match/not/pipe/<>/&&/|| counts; "
-        "README.md and pkg_all.foi are what their recipes produce from the checked-in files. Catches one-sided edits of constants, declarations and counted constructs.",
+        "README.md and pkg_all.foi are what their recipes produce from the checked-in files; the one declaration the compiler adds by itself (import of frt for unions with payload cases) is mirrored in the expected tables and its closed forms are pinned. Catches one-sided edits of constants, declarations and counted constructs.",
         "Does not catch edits of grouping, comparison operators, argument order or identifiers on one side only, nor a compiler change whose regenerated output was only partly checked in (one seeded variant of that kind is documented as undetected).",
         "DESIGN.md §3 C04",
     ),
@@ -161,20 +161,20 @@ CLAIMED.update({
 
 CLAIMED.update({
     "C02": (
-        "sibling-agreement rule over the four FType traversals (constructor coverage computed from the type declarations), traversal-completeness analysis (TRAV: every Expr-bearing payload component visited on every path, helpers inlined), closed forms of the numbering chain / anchor unifications / fresh instantiation",
-        "Principality and annotation-erasure invariance over all constraint graphs are NOT decided. Decided for all programs: every FType traversal handles every component-carrying constructor (1 known finding: the unifier ignores type arguments of user generic types); "
+        "sibling-agreement rule over the four FType traversals (constructor coverage computed from the type declarations), traversal-completeness analysis (TRAV: every Expr-bearing payload component visited on every path, helpers inlined), closed forms of the numbering chain / anchor unifications / fresh instantiation, error-discipline rule for relation lists (no []UniRel result dropped), stack discipline and instance keys of the traversals' visited sets",
+        "Principality and annotation-erasure invariance over all constraint graphs are NOT decided. Decided for all programs: every FType traversal handles every component-carrying constructor (the unifier's missing record/union arms were repaired); no relation list produced by a call is discarded (found and repaired one such site); visited sets guard recursion only — removed when the guarded subtree is done and keyed by instance (found and repaired three defects); "
         "constraint collection, type-variable collection and substitution visit every sub-expression on every path; leftover variables are numbered by first occurrence in the function type; declared/fresh result type is unified with the body and kept in the returned definition; every reference instantiates a generic function afresh.",
-        "The unifier's case analysis itself is not decided. Rule (d)'s second clause was added after a seeded variant.",
+        "The unifier's case analysis itself is not decided. Rule (d)'s second clause and rules (e), (f) were added after seeded variants.",
         "DESIGN.md §3 C02",
     ),
 })
 
 CLAIMED.update({
     "C17": (
-        "sibling agreement between tinyfo and fc: constant evaluation of operator/keyword tables, closed forms of the precedence loop and driver, reviewed closed forms (cell identity kept) of tinyfo's 18 emitters for the shared constructs against fc's emission templates",
+        "sibling agreement between tinyfo and fc: constant evaluation of operator/keyword tables, closed forms of the precedence loop and driver, reviewed closed forms (cell identity kept) of tinyfo's 18 emitters for the shared constructs against fc's emission templates, canonical typed-syntax digests of all 256 tinyfo functions (the directory is kept as a record), two lowering facts on typed Go syntax",
         "Behavioural equivalence of the two transpilers is NOT decided. Decided: the two implementations of one language agree on operator ranks/Go operators/keywords, on the three precedence-climbing facts, on output naming, and on the emission shape of every shared construct "
-        "(fields, arguments, elements, statements, arms in source order; partial-application closure; conditionals over lazy blocks). The directory is frozen, so any change of an emitter is reported.",
-        "tinyfo's parser, its per-call type-parameter resolution and the behaviour of emitted programs are not decided; fc's own templates (C01/C03/C08) are the reference.",
+        "(fields, arguments, elements, statements, arms in source order; partial-application closure; conditionals over lazy blocks); `=`/`<>` always become the table's function applied to (lhs, rhs); destructuring binds the k-th name to the k-th component type. tinyfo is kept for record keeping (README): every function still has the canonical digest whose agreement with fc was reviewed; any other edit is reported as undecided.",
+        "tinyfo's parser, its per-call type-parameter resolution and the behaviour of emitted programs are not decided (beyond change detection against the reviewed baseline, which also fires on behaviour-preserving rewrites); fc's own templates (C01/C03/C08) are the reference.",
         "DESIGN.md §3 C17",
     ),
 })
